@@ -113,6 +113,16 @@ where
         }
     }
 
+    /// Wake every task waiting in [`LocalStreamIds::poll_alloc_sid`], e.g. when the connection has failed:
+    /// the caller re-polls and observes the error instead of sleeping forever.
+    fn wake_all(&mut self) {
+        for wakers in self.wakers.iter_mut() {
+            for waker in wakers.drain(..) {
+                waker.wake();
+            }
+        }
+    }
+
     pub fn revise_max_streams(
         &mut self,
         zero_rtt_rejected: bool,
@@ -207,6 +217,11 @@ where
     /// but it is very very hard to happen.
     pub fn poll_alloc_sid(&self, cx: &mut Context<'_>, dir: Dir) -> Poll<Option<StreamId>> {
         self.0.lock().unwrap().poll_alloc_sid(cx, dir)
+    }
+
+    /// Wake every task waiting for a stream id (the connection failed; no more ids will be granted).
+    pub fn wake_all(&self) {
+        self.0.lock().unwrap().wake_all();
     }
 
     pub fn revise_max_streams(
